@@ -654,6 +654,19 @@ def rule_s1(ctx: Ctx) -> None:
                         ctx.violation("C13-S1", ins, st, f"CLI `insenc`: branch on {'not ' if negated else ''}{call_name(t)[-1]} prints {msg[:70]!r}")
                     else:
                         ctx.ok("C13-S1", ins.where, f"{'not ' if negated else ''}{call_name(t)[-1]}(basis) -> message mentions '{word}'", st, ins)
+        # a verdict placed in the elif / else part of another verdict's test is reported only when that other one fails
+        for st in ins.body:
+            if isinstance(st, ast.If):
+                t0 = st.test.operand if isinstance(st.test, ast.UnaryOp) and isinstance(st.test.op, ast.Not) else st.test
+                if isinstance(t0, ast.Call) and call_name(t0) and call_name(t0)[-1] in ("is_insertion_encodable_maximum", "is_insertion_encodable_rightmost"):
+                    for sub in st.orelse:
+                        for n in ast.walk(sub):
+                            if isinstance(n, ast.If):
+                                t1 = n.test.operand if isinstance(n.test, ast.UnaryOp) and isinstance(n.test.op, ast.Not) else n.test
+                                if isinstance(t1, ast.Call) and call_name(t1) and call_name(t1)[-1] in ("is_insertion_encodable_maximum", "is_insertion_encodable_rightmost") and call_name(t1)[-1] != call_name(t0)[-1] \
+                                        and not (isinstance(n.test, ast.UnaryOp)):
+                                    ctx.violation("C13-S1", ins, n, f"CLI `insenc`: the verdict of {call_name(t1)[-1]} is reported only when {call_name(t0)[-1]} fails (elif): a class with both encodings gets only one of the two lines", robust=True)
+                                    return
         if seen != 3:
             raise AnalysisError(f"{ins.where}: expected three verdict branches, found {seen}")
 
